@@ -86,8 +86,8 @@ theorem trimmed_is_trim (hdr : List Char) :
     unfold trimSpace at hc
     by_cases hne : trimLeft (trimRight hdr) = []
     · rw [hne] at hc; simp at hc
-    · rw [hq1, List.getLast?_append_of_ne_nil _ hne]
-      exact hc
+    · rw [hq1, List.getLast?_append, hc]
+      rfl
 
 /-- The minted id is 16 lowercase hex characters, for every 8 random bytes (the all-zero fallback
 included). -/
@@ -114,12 +114,16 @@ theorem request_id_shape (hdr : List Char) (rnd : List UInt8) (h : rnd.length = 
 example : resolveRequestID "  abc-123\t ".toList [1, 2, 3, 4, 5, 6, 7, 8] = "abc-123".toList := by decide
 example : resolveRequestID "  　 ".toList [1, 2, 3, 4, 5, 6, 7, 255] = "01020304050607ff".toList := by
   decide
+set_option maxRecDepth 20000 in
 example : resolveRequestID (List.replicate 128 'x') [0, 0, 0, 0, 0, 0, 0, 0] = List.replicate 128 'x' := by
   decide
+set_option maxRecDepth 20000 in
 example : resolveRequestID (List.replicate 129 'x') [0, 0, 0, 0, 0, 0, 0, 0] = "0000000000000000".toList := by
   decide
+set_option maxRecDepth 20000 in
 example : resolveRequestID (List.replicate 43 '€') [0, 0, 0, 0, 0, 0, 0, 0] = "0000000000000000".toList := by
   decide
+set_option maxRecDepth 20000 in
 example : resolveRequestID (List.replicate 42 '€') [0, 0, 0, 0, 0, 0, 0, 0] = List.replicate 42 '€' := by
   decide
 
@@ -140,14 +144,91 @@ theorem later_writes_spare_protected {F : Facts} (hF : FactsOK F) {ops : List Hd
     simp only [hname, nameMatches, beq_iff_eq] at hm hok
     subst hm
     rw [← heq] at hok
-    have : protectedNames.contains n = true := by simpa using hn
-    simp [this, hfn] at hok
+    have hfn' : w.fn ∉ ownWriters := by simpa using hfn
+    have hok' : ¬ n ∈ protectedNames ∨ w.fn ∈ ownWriters := by simpa using hok
+    rcases hok' with h1 | h1
+    · exact h1 hn
+    · exact hfn' h1
   | prefixed p =>
     simp only [hname, nameMatches] at hm hok
     rw [← heq] at hm
     have := List.all_eq_true.mp hok n hn
     simp [hm] at this
   | unknown src => simp [hname, nameMatches] at hm
+
+/-! ### the capability table -/
+
+theorem mem_enabledRows {α : Type} {rows : List (Bool × α)} {x : α} :
+    x ∈ enabledRows rows ↔ (true, x) ∈ rows := by
+  simp only [enabledRows, List.mem_filterMap]
+  constructor
+  · rintro ⟨r, hr, h⟩
+    obtain ⟨c, y⟩ := r
+    cases c <;> simp at h
+    subst h; exact hr
+  · intro h
+    exact ⟨(true, x), h, by simp⟩
+
+/-- the names `addCapabilityHeaders` can set -/
+def capNames : List String :=
+  [hSupportedEncodings, hMaxRequestBytes, hMaxResponseBytes, hMaxExternalized, hExternalization, hUploadURL,
+   hMaxUploadBytes, hProofRequired, hIntrospect, hStickyEnabled, hStickyTTL, hStickyEchoHeaders]
+
+theorem cap_rows (cfg : Cfg) (p : String × String) (hp : p ∈ capabilityHeaders cfg) :
+    ∃ c, (c, p) ∈ capabilityTable cfg ∧ c = true := by
+  exact ⟨true, mem_enabledRows.mp hp, rfl⟩
+
+theorem cap_name_mem (cfg : Cfg) (p : String × String) (hp : p ∈ capabilityHeaders cfg) : p.1 ∈ capNames := by
+  have h := mem_enabledRows.mp hp
+  simp only [capabilityTable, List.mem_cons, List.mem_nil_iff, or_false, Prod.mk.injEq] at h
+  rcases h with h | h | h | h | h | h | h | h | h | h | h | h <;> obtain ⟨_, rfl⟩ := h <;> simp [capNames]
+
+theorem hget_setAll_notin (kvs : List (String × String)) (h : Headers) (n : String)
+    (hn : ∀ p ∈ kvs, p.1 ≠ n) : hget (setAll h kvs) n = hget h n := by
+  rw [hget_setAll]
+  have : kvs.reverse.find? (fun p => p.1 == n) = none := by
+    rw [List.find?_eq_none]
+    intro p hp
+    have := hn p (by simpa using hp)
+    simpa using this
+  rw [this]
+
+theorem hget_setAll_unique (kvs : List (String × String)) (h : Headers) (n v : String)
+    (hmem : (n, v) ∈ kvs) (huniq : ∀ p ∈ kvs, p.1 = n → p.2 = v) : hget (setAll h kvs) n = some v := by
+  rw [hget_setAll]
+  cases hf : kvs.reverse.find? (fun p => p.1 == n) with
+  | none =>
+    have := List.find?_eq_none.mp hf (n, v) (by simpa using hmem)
+    simp at this
+  | some p =>
+    have hm : p ∈ kvs := by simpa using List.mem_of_find?_eq_some hf
+    have hp : p.1 = n := by simpa using List.find?_some hf
+    simp [huniq p hm hp]
+
+theorem caps_spare (cfg : Cfg) (h : Headers) (n : String) (hn : n ∉ capNames) :
+    hget (setAll h (capabilityHeaders cfg)) n = hget h n :=
+  hget_setAll_notin _ _ _ (fun p hp heq => hn (heq ▸ cap_name_mem cfg p hp))
+
+theorem caps_encodings (cfg : Cfg) (h : Headers) :
+    hget (setAll h (capabilityHeaders cfg)) hSupportedEncodings = some (supportedEncodingsValue cfg) := by
+  apply hget_setAll_unique
+  · exact mem_enabledRows.mpr (by simp [capabilityTable])
+  · intro p hp heq
+    have h := mem_enabledRows.mp hp
+    simp only [capabilityTable, List.mem_cons, List.mem_nil_iff, or_false, Prod.mk.injEq] at h
+    rcases h with h | h | h | h | h | h | h | h | h | h | h | h <;> obtain ⟨_, rfl⟩ := h <;>
+      first | rfl | (exfalso; simp [hSupportedEncodings, hMaxRequestBytes, hMaxResponseBytes, hMaxExternalized, hExternalization, hUploadURL, hMaxUploadBytes, hProofRequired, hIntrospect, hStickyEnabled, hStickyTTL, hStickyEchoHeaders] at heq)
+
+theorem caps_externalization (cfg : Cfg) (h : Headers) :
+    hget (setAll h (capabilityHeaders cfg)) hExternalization
+      = some (if cfg.externalStorage then "true" else "false") := by
+  apply hget_setAll_unique
+  · exact mem_enabledRows.mpr (by simp [capabilityTable])
+  · intro p hp heq
+    have h := mem_enabledRows.mp hp
+    simp only [capabilityTable, List.mem_cons, List.mem_nil_iff, or_false, Prod.mk.injEq] at h
+    rcases h with h | h | h | h | h | h | h | h | h | h | h | h <;> obtain ⟨_, rfl⟩ := h <;>
+      first | rfl | (exfalso; simp [hSupportedEncodings, hMaxRequestBytes, hMaxResponseBytes, hMaxExternalized, hExternalization, hUploadURL, hMaxUploadBytes, hProofRequired, hIntrospect, hStickyEnabled, hStickyTTL, hStickyEchoHeaders] at heq)
 
 /-- **X-Request-ID on every response**: whichever exit `ServeHTTP` takes (hook failure, preflight,
 token-proxy preflight, 413, dispatch to any handler / page / mux error) and whatever the package
@@ -159,23 +240,99 @@ theorem request_id_on_every_exit (F : Facts) (hF : FactsOK F) (cfg : Cfg) (req :
   unfold serveHeaders
   simp only []
   rw [hget_foldl_ops _ _ _ (later_writes_spare_protected hF hops hRequestID (by simp [protectedNames]))]
-  have hcap : ∀ h : Headers, hget (setAll h (capabilityHeaders cfg)) hRequestID = hget h hRequestID := by
-    intro h
-    rw [hget_setAll]
-    have : (capabilityHeaders cfg).reverse.find? (fun p => p.1 == hRequestID) = none := by
-      rw [List.find?_eq_none]
-      intro p hp
-      have hp' : p ∈ capabilityHeaders cfg := by simpa using hp
-      simp only [capabilityHeaders, stickyCapabilityHeaders] at hp'
-      revert hp'
-      cases cfg.sticky <;> simp only [List.mem_append, List.mem_cons, List.mem_ite_nil_right, List.mem_nil_iff,
-        List.not_mem_nil, or_false, false_or, List.mem_singleton] <;> intro hp' <;>
-      (repeat' (rcases hp' with hp' | hp')) <;> (first | (obtain ⟨_, rfl⟩ := hp') | subst hp' | skip) <;>
-      simp_all (config := { decide := true }) [hRequestID, hSupportedEncodings, hMaxRequestBytes, hMaxResponseBytes,
-        hMaxExternalized, hExternalization, hUploadURL, hMaxUploadBytes, hProofRequired, hIntrospect,
-        hStickyEnabled, hStickyTTL, hStickyEchoHeaders]
-    rw [this]
-  cases exitOf cfg req <;> simp only [] <;> (try split) <;>
-    simp [hcap, hget_hset_self, hget_hset_other, hRequestID, hExpose]
+  have hcap : ∀ h : Headers, hget (setAll h (capabilityHeaders cfg)) hRequestID = hget h hRequestID :=
+    fun h => caps_spare cfg h hRequestID (by decide)
+  have hne : hRequestID ≠ hExpose := by decide
+  cases exitOf cfg req <;> simp only [] <;> by_cases hc : cfg.cors = true <;>
+    simp [hc, hcap, hget_hset_self, hget_hset_other _ _ _ _ hne]
+
+/-- **Capability headers after the hook**: once the serve-start hook has succeeded, every response —
+every exit, every later write of the package — carries VGI-Supported-Encodings (possibly empty, never
+absent) and VGI-Externalization-Enabled ("true"/"false"). -/
+theorem capabilities_after_hook (F : Facts) (hF : FactsOK F) (cfg : Cfg) (hhook : cfg.hookFails = false)
+    (req : Req) (rnd : List UInt8) (ops : List HdrOp) (hops : LaterWrites F ops) :
+    hget (serveHeaders cfg req rnd ops) hSupportedEncodings = some (supportedEncodingsValue cfg) ∧
+    hget (serveHeaders cfg req rnd ops) hExternalization
+      = some (if cfg.externalStorage then "true" else "false") := by
+  unfold serveHeaders
+  simp only []
+  rw [hget_foldl_ops _ _ _ (later_writes_spare_protected hF hops hSupportedEncodings (by simp [protectedNames])),
+      hget_foldl_ops _ _ _ (later_writes_spare_protected hF hops hExternalization (by simp [protectedNames]))]
+  have hne1 : hSupportedEncodings ≠ hExpose := by decide
+  have hne2 : hExternalization ≠ hExpose := by decide
+  have hex : exitOf cfg req ≠ .hookFailed := by
+    unfold exitOf; rw [hhook]; simp only [Bool.false_eq_true, if_false]
+    split <;> (try split) <;> intro h <;> cases h
+  cases he : exitOf cfg req <;> simp only [] <;> (try exact absurd he hex) <;>
+    by_cases hc : cfg.cors = true <;>
+    simp [hc, caps_encodings, caps_externalization, hget_hset_other _ _ _ _ hne1, hget_hset_other _ _ _ _ hne2]
+
+/-- With CORS enabled, every response past the hook except the PKCE token-proxy preflight (which
+applies its own origin-allowlist CORS) carries the configuration's expose list. -/
+theorem expose_on_cors_responses (F : Facts) (hF : FactsOK F) (cfg : Cfg) (hcors : cfg.cors = true)
+    (req : Req) (rnd : List UInt8) (ops : List HdrOp) (hops : LaterWrites F ops)
+    (hex : exitOf cfg req ≠ .hookFailed) (hex2 : exitOf cfg req ≠ .tokenPreflight) :
+    hget (serveHeaders cfg req rnd ops) hExpose = some (", ".intercalate (exposeList cfg)) := by
+  unfold serveHeaders
+  simp only []
+  rw [hget_foldl_ops _ _ _ (later_writes_spare_protected hF hops hExpose (by simp [protectedNames]))]
+  cases he : exitOf cfg req <;> simp only [] <;> (try exact absurd he hex) <;> (try exact absurd he hex2) <;>
+    simp [hcors, hget_hset_self]
+
+/-! ## the expose list covers everything the configuration can emit -/
+
+theorem mem_exposeList_of_row (cfg : Cfg) (n : String) (h : (true, n) ∈ exposeTable cfg) : n ∈ exposeList cfg := by
+  unfold exposeList
+  exact List.mem_append_left _ (mem_enabledRows.mpr h)
+
+/-- **Expose covers.** For every configuration: each capability header it advertises, each header
+a rejection can carry (VGI-Auth-Reason, WWW-Authenticate, VGI-Auth-Proxy-Required when auth depends
+on a proxy), each per-outcome header (X-VGI-RPC-Error, X-VGI-Content-Encoding, VGI-Session,
+VGI-Session-Close, every configured VGI-Echo-<name>) and X-Request-ID is listed in
+Access-Control-Expose-Headers. -/
+theorem expose_covers (cfg : Cfg) (n : String)
+    (hn : n ∈ (capabilityHeaders cfg).map (·.1) ∨ n ∈ rejectionHeaders cfg ∨ n ∈ outcomeHeaders cfg ∨
+      n = hRequestID) : n ∈ exposeList cfg := by
+  rcases hn with hn | hn | hn | hn
+  · obtain ⟨p, hp, rfl⟩ := List.mem_map.mp hn
+    have h := mem_enabledRows.mp hp
+    simp only [capabilityTable, List.mem_cons, List.mem_nil_iff, or_false, Prod.mk.injEq] at h
+    rcases h with h | h | h | h | h | h | h | h | h | h | h | h <;> obtain ⟨hc, rfl⟩ := h <;>
+      apply mem_exposeList_of_row <;> simp_all [exposeTable]
+  · simp only [rejectionHeaders, List.mem_append, List.mem_cons, List.mem_nil_iff, or_false] at hn
+    rcases hn with (rfl | rfl) | hn
+    · apply mem_exposeList_of_row; simp [exposeTable]
+    · apply mem_exposeList_of_row; simp [exposeTable]
+    · split at hn
+      · simp at hn
+      · rename_i hne
+        simp only [List.mem_cons, List.mem_nil_iff, or_false] at hn
+        subst hn
+        apply mem_exposeList_of_row
+        simp [exposeTable, hne]
+  · simp only [outcomeHeaders, List.mem_append, List.mem_cons, List.mem_nil_iff, or_false] at hn
+    rcases hn with (rfl | rfl | rfl | rfl) | hn
+    · apply mem_exposeList_of_row; simp [exposeTable]
+    · apply mem_exposeList_of_row; simp [exposeTable]
+    · apply mem_exposeList_of_row; simp [exposeTable]
+    · apply mem_exposeList_of_row; simp [exposeTable]
+    · unfold exposeList; exact List.mem_append_right _ hn
+  · subst hn; apply mem_exposeList_of_row; simp [exposeTable]
+
+/-- non-vacuity: a configuration with everything on and two echo names advertises 12 capability
+headers, and its expose list has 22 entries -/
+example : (capabilityHeaders { cfgMax with echoNames := ["fly-force-instance-id", "x-region"] }).length = 12 := by
+  decide
+example : (exposeList { cfgMax with echoNames := ["fly-force-instance-id", "x-region"] }).length = 22 := by
+  decide
+example : (exposeList { cfgMax with proofRequired := false, extraProxyHeaders := ["x-proxy-user"] }).contains
+    hAuthProxyRequired = true := by decide
+def cfgMin : Cfg :=
+  { cors := false, maxRequestBytes := 0, maxResponseBytes := 0, maxExternalizedResponseBytes := 0,
+    maxUploadBytes := 0, externalStorage := false, upload := false, proofRequired := false,
+    introspect := false, extraProxyHeaders := [], sticky := none, echoNames := [],
+    compression := false, hookFails := false, pkce := false }
+
+example : (capabilityHeaders cfgMin) = [(hSupportedEncodings, ""), (hExternalization, "false")] := by decide
 
 end Vgi.Props.C20
